@@ -1886,7 +1886,9 @@ class CurveEngineC09:
         "unsuccessful, aborted by injected optimiser faults), setting edits "
         "and rate_quality over 7 regressors + 'none', 5 training-set forms "
         "(label, str dir, Path dir, fresh in-memory tuples), feature "
-        "subsets/orders and LDA flags; oracles Q1-Q6 after every rate call. "
+        "subsets/orders and LDA flags; rating requests that are aborted by "
+        "an injected fault (rater construction or the rating itself, before "
+        "or after) and then repeated; oracles Q1-Q8 after every rate call. "
         "distinct = op-list digest; non-trivial = a rate call issued in a "
         "state other than 'never touched' after at least one other rate or "
         "state change")
@@ -3062,8 +3064,10 @@ class CurveEngineC10:
         "twin-world simulation: the same seeded op list (2-5 scenarios of "
         "hold / pass / edit in place / pass again over parameter sets, step "
         "lists, option and method dictionaries, ranges, feature-name lists, "
-        "force and sample arrays, with gcf_k, multi-pass ranges and plateau "
-        "search mixed in) is executed by an aliasing caller and by a "
+        "force arrays (also with NaN/inf samples), sample arrays, sample "
+        "weights and training sets read from disk, with gcf_k, multi-pass "
+        "ranges and plateau search mixed in) is executed by an aliasing "
+        "caller and by a "
         "by-value caller; A1: outcomes and full curve observations identical "
         "after every call; A2: every argument unchanged by the call. "
         "distinct = op-list digest; non-trivial = a held object was edited "
